@@ -12,7 +12,7 @@ Definition Sx (cpp : bool) (ts : list ptok) (tr : ast) (rk : nat) : Prop :=
     (forall r a, r < rk -> quiet cpp r (rev ts ++ bef s) a rest) ->
     (rk = 14 -> forall a, quiet cpp 14 (rev ts ++ bef s) (S a) rest) ->
     (rk = 1 -> forall a, quiet cpp 1 (rev ts ++ bef s) a rest) ->
-    (rk = 14 -> hasq ts = true -> quiet cpp 14 (rev ts ++ bef s) 0 rest) ->
+    (rk = 14 -> topq ts = true -> quiet cpp 14 (rev ts ++ bef s) 0 rest) ->
     cont cpp (comp cpp f) (S f) n rk d (mkafter s ts tr, rest) = Some out ->
     comp cpp (S f) d (s, ts ++ rest) = Some out.
 
